@@ -24,6 +24,11 @@ func VH_C15_history() {
 	} else {
 		w.Writer = dst
 	}
+	if zzverif.Choice(2) == 1 {
+		// every buffer counts as "grown above the reuse limit" (the path Close takes for buffers
+		// that are not returned to the pool)
+		TriggerLevelWriterBufferReuseLimit = 0
+	}
 	var held, expected []vItem
 	triggered := false
 	k := zzverif.Param("ops", 3)
